@@ -42,6 +42,7 @@ func c09Funcs() []*ast.Node {
 		ast.Func("bump", []string{"x"}, ast.Block(ast.ExprS(ast.Set(ast.Id("x"), ast.Bin("+", ast.Id("x"), ast.Num("1")))), ast.Return(ast.Id("x")))),
 		ast.Func("pushv", []string{"a", "v"}, ast.Block(ast.ExprS(ast.Method(ast.Id("a"), "push", ast.Id("v"))))),
 		ast.Func("getm", []string{"o", "k"}, ast.Block(ast.Return(ast.Idx(ast.Id("o"), ast.Id("k"))))),
+		ast.Func("three", []string{"p1", "p2", "p3"}, ast.Block(ast.Return(ast.Arr(ast.Id("p1"), ast.Id("p2"), ast.Id("p3"))))),
 	}
 }
 
@@ -466,6 +467,16 @@ func (g *c09Gen) action() bool {
 					ast.ExprS(ast.Set(ast.Mem(ast.Idx(ast.Id("lit2"), ast.Num("3")), "k"), ast.Str("changed-three"))),
 					ast.Print(ast.Str("LIT2"), ast.Id("lit2")), ast.ExprS(ast.Set(ast.Id("v0"), ast.Num("77"))), ast.Print(ast.Str("LIT2b"), ast.Id("lit2")))
 				label = "literal-of-assignments-then-store"
+				break
+			}
+			if g.b("laterassigns") {
+				// an earlier element (argument) names a place that a later element assigns to:
+				// the earlier one holds the value the place had when it was evaluated
+				stmts = append(stmts, ast.ExprS(ast.Set(ast.Id("ev"), ast.Num("1"))), ast.ExprS(ast.Set(ast.Mem(ast.Id("eo"), "c"), ast.Str("s"))),
+					ast.Print(ast.Str("LIT3"), ast.Arr(ast.Id("ev"), ast.Post("++", ast.Id("ev")), ast.Id("ev"), ast.Asg("+=", ast.Id("ev"), ast.Num("5")), ast.Id("ev"))),
+					ast.Print(ast.Str("LIT4"), ast.Arr(ast.Mem(ast.Id("eo"), "c"), ast.Set(ast.Mem(ast.Id("eo"), "c"), ast.Num("9")), ast.Mem(ast.Id("eo"), "c")),
+						ast.Call(ast.Id("getm"), ast.Arr(ast.Id("ev"), ast.Set(ast.Id("ev"), ast.Str("t"))), ast.Num("0")), ast.Call(ast.Id("three"), ast.Id("ev"), ast.Pre("--", ast.Id("ev")), ast.Id("ev"))))
+				label = "earlier-element-names-a-place-a-later-one-assigns"
 				break
 			}
 			stmts = append(stmts, ast.ExprS(ast.Set(ast.Id("lit"), ast.Arr(ast.Id("v0"), ast.Id("v1"), ast.Obj(ast.KV("k", ast.Id("v0")))))),
